@@ -27,7 +27,15 @@ def h_newcommand(parser, buf, mac, args, delim, pos):
     if name in parser.parms.newcommand_ignore:
         return []
     nargs = parser.get_text_expanded(args[2])
-    nargs = int(nargs) if nargs.isdecimal() else 0
+    try:
+        nargs = int(nargs) if nargs.isdecimal() else 0
+    except ValueError:
+        nargs = 10      # too many digits for int()
+    if nargs > 9:
+        # as in TeX; 'A' * nargs below might exhaust memory
+        return utils.latex_error(
+                    'more than 9 arguments in definition of macro ' + name,
+                            args[1][0].pos, parser.latex, parser.parms)
     for a in [b for b in args[4] if type(b) is defs.ArgumentToken]:
         if a.arg < 1 or a.arg > nargs:
             return utils.latex_error('illegal argument #' + str(a.arg)
